@@ -145,10 +145,14 @@ def analyse(prop, spec, ops, model, impl, crashes):
         if "loads" in spec["model"] and m["head"] == "ok" and a["head"] == "ok":
             ml = m.get("loads")
             uw = meta.get("untraced_widths")
+            skip = False
             if uw and ml not in (None, "-"):
-                kept = [t for t in ml.split(",") if int(t.split(":")[2]) not in uw]
-                ml = ",".join(kept) if kept else "-"
-            if a.get("loads", "?") != "?" and ml != a.get("loads"):
+                if ":" in ml:
+                    kept = [t for t in ml.split(",") if int(t.split(":")[2]) not in uw]
+                    ml = ",".join(kept) if kept else "-"
+                else:
+                    skip = True      # digest of a long trace that includes the untraced vector loads
+            if not skip and a.get("loads", "?") != "?" and ml != a.get("loads"):
                 corr.append(dict(meta=meta, kind="loads", op=line, model=model[i], impl=impl[i]))
                 ok_here = False
         if ok_here:
